@@ -247,6 +247,39 @@ def native_features(f):
     return check
 
 
+def run_ops(report, tier, seed, table):
+    """per operator: the emitted instruction belongs to the proposal of the input operator.  Decided by re-using C03's
+    per-operator obligations (all immediates symbolic): an operator whose emitted variant is the paired one stays in its
+    proposal trivially; for every variant mismatch C03 finds, the proposals of both sides are compared here."""
+    from obligations import c03
+    ob = common.Obligation('O20.ops', 'for every non-control operator of the feature set (immediates symbolic): the instruction walrus emits for it belongs to the same proposal (so no operator is re-encoded with an opcode of a proposal the input does not need)')
+    try:
+        r3, _ctx3 = c03.run(tier, seed)
+        prop_of_instr = {}
+        for opname, ents in table.items():
+            for e in ents:
+                prop_of_instr[e['instruction'].split('#')[0]] = e.get('proposal', 'mvp')
+        nbad = 0
+        for v in r3.violations:
+            k = v.get('key', '')
+            if not k.startswith('variant:'):
+                continue
+            opn, got = k[len('variant:'):].split('->')
+            pin = (table.get(opn) or [{}])[0].get('proposal', 'mvp')
+            pout = prop_of_instr.get(got, '?')
+            if pin != pout:
+                nbad += 1
+                report.violations.append(dict(v, key='escalates.op:' + opn, what='operator %s (proposal %s) is emitted as %s (proposal %s)' % (opn, pin, got, pout)))
+        n = sum(1 for o in r3.obligations if o.oid.startswith('O3.1:'))
+        inc = sum(1 for o in r3.obligations if o.oid.startswith('O3.1:') and o.status == 'inconclusive')
+        ob.detail = '%d operators examined' % n
+        report.queries += r3.queries
+        ob.status = 'violated' if nbad else ('inconclusive' if inc or not n else 'discharged')
+    except Inconclusive as ex:
+        ob.status, ob.detail = 'inconclusive', str(ex)[:300]
+    report.add(ob)
+
+
 def run(tier, seed, only=None):
     report = common.Report('C20', tier, seed)
     ctx = common.Ctx()
@@ -263,6 +296,8 @@ def run(tier, seed, only=None):
         items += [(name, sp, table, timeout_ms, False), (name + '+gc', sp, table, timeout_ms, True)]
     items = [i for i in items if not only or i[0] in only]
     pc.run_parallel(ctx, report, run_scenario, items)
+    if not only or 'O20.ops' in only:
+        run_ops(report, tier, seed, table)
     report.bounds = {'generated': gen.bounds_text(tier, len(gl)) + ' x {emit, gc+emit}', 'descriptions': 'an MVP module (block types empty/result/inline-able type indices, memory and table immediates 0, active segments only), the same with bulk-memory use, with bulk-memory operators only in dead code, after GC, and the full module(s)',
                      'proposals': ', '.join(FEATS)}
     report.assumptions = ['"validates under the smallest feature set" is claimed as "needs no proposal the input does not need" by a reference need() function; the real validator is only used in replay',
